@@ -33,7 +33,7 @@ Theorem C06_raw_codepage : forall s, forallb (fun c => mem c codepage) s = true 
 Proof. exact quote_roundtrip_codepage. Qed.
 Print Assumptions C06_raw_codepage.
 
-(* the class cannot be widened to all strings: a carriage return reaches the Python text raw *)
+(* the class cannot be widened to all strings: a NUL character reaches the Python text raw *)
 Theorem C06_raw_class_is_needed :
   exists s, tokenise (quotify_str s) = [Tok KString (quote_body s)]
     /\ py_dq_decode (escape_string (quote_body s)) = None.
